@@ -13,7 +13,7 @@
    `sim_run` inside Coq; a rejected log is a disagreement between the code and this machine. *)
 From Coq Require Import ZArith Bool List.
 Import ListNotations.
-From Verif Require Import Model.Val Gen.Src_Task Gen.Src_Event.
+From Verif Require Import Model.Val Gen.Src_Task Gen.Src_Event Gen.Src_TaskGraph.
 Open Scope Z_scope.
 
 (* ---------- static description of a task, given when its graph is loaded *)
@@ -82,8 +82,13 @@ Definition complete (s : sim) (p : Z) : bool :=
 Definition parents_ok (s : sim) (x : tst) : bool :=
   if ti_terminal (t_info x) then existsb (complete s) (ti_parents (t_info x))
   else forallb (complete s) (ti_parents (t_info x)).
+(* the readiness test itself is the one TRANSLATED FROM SOURCE (Gen/Src_TaskGraph.is_ready_to_run, regenerated from
+   workload/tasks.py on every run) applied to the machine's task table; `parents_ok` above is what the proofs need from it
+   (Proofs/SimP.v: is_ready_spec — a source edit that weakens the test breaks that lemma and every theorem after it) *)
+Definition state_of (s : sim) (p : Z) : task_state :=
+  match s_tasks s p with Some y => t_state (t_dyn y) | None => TS_VIRTUAL end.
 Definition is_ready (s : sim) (x : tst) : bool :=
-  parents_ok s x && (task_state_eqb (t_state (t_dyn x)) TS_SCHEDULED || task_state_eqb (t_state (t_dyn x)) TS_PREEMPTED).
+  is_ready_to_run (complete s) (state_of s) (ti_terminal (t_info x)) (ti_parents (t_info x)) (t_state (t_dyn x)).
 
 (* Task.remaining_time as the main loop reads it for a placed task *)
 Definition rem_of (s : sim) (t : Z) : Z :=
